@@ -1,28 +1,43 @@
-"""R-HOM: dimensional analysis of the reported statistics with the a priori reference deviation as the unit.
+"""R-HOM / R-HOM-SEL: dimensional analysis of the reported statistics, the unit being the a priori
+reference standard deviation.
 
-gama builds the adjustment so that every quantity is homogeneous in the a priori reference standard
-deviation s = LocalNetwork::m_0_apr_: weights (s/stdev)^2 have degree 2, the homogenised design matrix
-and right-hand side degree 1, v'Pv degree 2, cofactors of the unknowns degree -2, the reference deviation
+gama builds the adjustment so that every quantity is homogeneous in s = LocalNetwork::m_0_apr_:
+weights (s/stdev)^2 have degree 2, the homogenised design matrix and right-hand side degree 1, v'Pv degree 2,
+cofactors of the unknowns degree -2 (q_bb of the homogenised system 0, q_bx -1), the reference deviation
 (a priori, a posteriori or `m_0()`) degree 1; input data, residuals, adjusted values, probabilities and
-distribution quantiles degree 0.  A printed standard deviation m_0()*sqrt(q) therefore has degree 0 - which
-is the clause of C09 "changing only the a priori reference deviation rescales v'Pv and nothing else".
+distribution quantiles degree 0.  A printed standard deviation m_0()*sqrt(q) therefore has degree 0 - the
+clause of C09 "changing only the a priori reference deviation rescales v'Pv and nothing else".
 
-The engine is an abstract interpretation over the exported CFGs:
+rule_hom - an abstract interpretation over the exported CFGs:
 
-* a value is a degree (exact rational) together with the exponents of the two distinguished sources
-  `m_0()` and `apriori_m_0()`; literal zero is degree-polymorphic;
-* product adds, quotient subtracts, sqrt halves, pow with a constant exponent multiplies;
-  sum / difference / comparison / ?: / min / max / atan2 require equal degrees (a mismatch is a violation
-  by itself); transcendental functions and the statistical quantile functions require degree 0;
-* locals are flow-sensitive (a variable re-used for a value of another degree is fine), merged at CFG joins;
-  fields of the writer classes are the join of all their writes; fields of LocalNetwork have tabled degrees
-  and every write in the modelled members is checked against the table;
-* calls are followed context-sensitively through every callee that has a body in the fact base (return
-  value and mutable reference parameters); sources without body come from `tables/hom.json`.
+* a value is a degree (exact rational) plus the exponents of the two distinguished sources `m_0()` and
+  `apriori_m_0()`; a literal zero is degree-polymorphic;
+* product adds, quotient subtracts, sqrt halves, pow with a constant exponent multiplies; sum / difference /
+  comparison / ?: / min / max / atan2 require equal degrees (a mismatch is a violation by itself);
+  transcendental and quantile functions require degree 0;
+* locals are flow-sensitive (a variable re-used for a value of another degree is fine); states are kept
+  apart per outcome of side-effect-free branch conditions over locals, so `if (k) x = sqrt(x/q); ...
+  if (k) out << x/m;` is followed exactly; fields of the writer classes are the join of all their writes;
+  fields of LocalNetwork have tabled degrees and every write in the modelled members is checked;
+* calls are followed context-sensitively through every callee with a body (return value, mutable reference
+  parameters, constructors of the writer visitors); sources without body come from `tables/hom.json`;
+* anything that cannot be modelled on the way to a checked value is exit 2 (AnalysisBroken), never a verdict.
 
-Sinks are the floating operands of `<<` in the result writers (directly or through forwarding helpers such
-as tagnl/tdRight/double2str), the return values of the public statistics accessors of LocalNetwork and the
-cofactor matrices handed to the solver.  Nothing is executed; no text, line or statement order is matched.
+Checked: every floating operand of `<<` in the result writers (directly or through forwarding helpers such as
+tagnl / tdRight / double2str), keyed by the XML tag / assignment name written just before it or else by the set
+of sources it is built from; the return values / out parameters of the statistics accessors of LocalNetwork
+(degree and exponent of m_0()); the writes of sigma_L, vahkopr, suma_pvv_, r; the cofactor matrices handed to
+the solver; homogeneity of every sum and comparison in the analysed functions; and that a writer never uses
+apriori_m_0() as the scale of a dimensionless result (the scale comes from m_0() only).
+
+rule_hom_selector - the reference-deviation type: Normal is reached only under the a priori polarity of the
+type predicates and Student only under the a posteriori one (branch edges that every path to the call must
+take, so early returns and predicates held in locals are fine), both alternatives are handled, m_0() returns
+the a priori value under a priori and the a posteriori one under a posteriori, vocabulary literals naming a
+type are written under the matching polarity, and a value written under a name of one of the two deviations
+is built from that deviation's sources.
+
+Nothing is executed; no source text, line number or statement order is matched.
 """
 import re
 from fractions import Fraction
@@ -277,6 +292,7 @@ class Model:
         self._atoms = {}
         self._fwsyn = None
         self.analysed = set()
+        self.unreached = []         # writer functions with numeric parameters and no call site in the build
 
     # ---------------------------------------------------------------- scope
     def in_scope(self, fn):
@@ -1333,6 +1349,38 @@ def roots(M):
     return out
 
 
+def external_contexts(M):
+    """Writer functions with numeric value parameters that no modelled function calls (entry points of the
+    library such as TestLinearization(IS, out, max_pol, max_dif)) are analysed in the contexts of their call
+    sites elsewhere in the build; the arguments there are evaluated without flow state (constants, default
+    arguments, locals with an initialiser)."""
+    fx = M.fx
+    todo = {}
+    done = {f.key for f in M.analysed}
+    for fn in fx.functions.values():
+        if M.in_scope(fn) and fn.body is not None and fn.key not in done:
+            todo[fn.key] = fn
+    if not todo:
+        return
+    found = set()
+    for caller in fx.functions.values():
+        if caller.body is None:
+            continue
+        for n in caller.calls():
+            g = todo.get(n.get("calleeKey") or "")
+            if g is None:
+                continue
+            act = Act(M, caller, [])
+            args = call_args(n)
+            avals = [act.eval(args[i]) if i < len(args) and is_num_t(p.get("t")) else None
+                     for i, p in enumerate(g.params)]
+            M.activate(g, avals)
+            found.add(g.key)
+    for k, fn in sorted(todo.items()):
+        if k not in found:
+            M.unreached.append(fn)
+
+
 _RUN = {}
 
 
@@ -1347,6 +1395,7 @@ def run_model(ctx):
         M.fieldval = prev
         for fn in roots(M):
             M.activate(fn, [None] * len(fn.params))
+        external_contexts(M)
         if M.fieldnew == prev:
             break
         prev = M.fieldnew
@@ -1378,8 +1427,8 @@ def rule_hom(ctx):
         if not M.in_scope(fn):
             continue
         atoms = M.atoms(fn, operand)
-        if not atoms:
-            continue                        # a constant
+        if not atoms and (val == Z or (val is not None and val[0] == "d" and val[1] == 0)):
+            continue                        # a constant / a value without any source
         label = tag or "{%s}" % ",".join(sorted(atoms))
         key = "%s:%s" % (fkey(fn), label)
         groups.setdefault(key, []).append((fn, node, operand, val, atoms))
@@ -1566,6 +1615,9 @@ def rule_hom(ctx):
                 where = fn.where(node)
         ctx.report(RULE, key, not msgs, where, key.split(":")[0], msg="; ".join(sorted(set(msgs))))
     ctx.floor(RULE, fl["internal_sinks"], len(gi), "cofactor matrices handed to the solver")
+    for fn in M.unreached:
+        ctx.note("R-HOM: %s takes numeric parameters and has no call site in the analysed build: its sinks are "
+                 "not checked" % fkey(fn))
     stale = [g for g in gaps if g not in used_gaps]
     for g in stale:
         ctx.note("R-HOM: tabled gap %s is no longer needed" % g)
